@@ -6,6 +6,7 @@ package flow
 import (
 	"fmt"
 	"go/ast"
+	"go/constant"
 	"go/token"
 	"go/types"
 
@@ -197,6 +198,22 @@ func (g *Graph) split(b *Block, c ast.Expr, t, f *Block) {
 			g.link(b, f, nil, nil, false)
 		}
 		return
+	}
+	// a comparison of two constants that the type checker did not see as one expression (an absorbed
+	// helper's `limit < 0` with the call's constant argument in place of the parameter)
+	if x, ok := c.(*ast.BinaryExpr); ok {
+		if _, isCmp := flipCmp[x.Op]; isCmp || x.Op == token.EQL || x.Op == token.NEQ {
+			l, lok := g.Info.Types[ast.Unparen(x.X)]
+			r, rok := g.Info.Types[ast.Unparen(x.Y)]
+			if lok && rok && l.Value != nil && r.Value != nil && l.Value.Kind() != constant.Unknown && r.Value.Kind() == l.Value.Kind() && (l.Value.Kind() == constant.Int || l.Value.Kind() == constant.String || l.Value.Kind() == constant.Bool && (x.Op == token.EQL || x.Op == token.NEQ)) {
+				if constant.Compare(l.Value, x.Op, r.Value) {
+					g.link(b, t, nil, nil, false)
+				} else {
+					g.link(b, f, nil, nil, false)
+				}
+				return
+			}
+		}
 	}
 	switch x := c.(type) {
 	case *ast.Ident:
